@@ -4,7 +4,7 @@
    was read through).  What the model cannot exhibit: real preemption points, nogil sections, dict atomicity.
    Model: Conc/Conc.v (queries as programs of atomic actions on the shared state of View/Purity.v). *)
 From Coq Require Import ZArith.
-From SA Require Import Base.Prelude Index.Index View.View View.Purity View.Purity_Proofs Conc.Conc Conc.Conc_Proofs.
+From SA Require Import Base.Prelude Index.Index View.View View.Purity View.Purity_Proofs View.Purity_Indexed Index.Index_Spec Conc.Conc Conc.Conc_Proofs Conc.Conc_Indexed.
 Open Scope N_scope.
 (* an interleaving in which a view is sliced (its handle reset) between the two term reads of a phrase query *)
 Example C20_interleaving_example :
@@ -51,3 +51,36 @@ Theorem C20_action_inv : forall (good_posts : posts -> N -> Prop) p a v p',
   Inv good_posts p' /\ (exists extra, arrays p' = arrays p ++ extra) /\ heap_le p p'.
 Proof. exact do_action_inv. Qed.
 Print Assumptions C20_action_inv.
+
+(* ================= premise-free, for indexed corpora =================
+   Both postings premises are proved for indexed corpora (Conc/Conc_Indexed.v); the only restriction left is on
+   concurrent PHRASE queries against a VIEW: >= 2 terms must not contain an immediately repeated term
+   (queries_in_domain_after).  The pool may be any state reached by an in-domain history (ops_in_domain). *)
+Theorem C20_indexed_every_interleaving : forall docs bs ix cg ops outs p0 queries pgs sched p' ths',
+  wf_docs docs -> index false bs docs = AOk ix ->
+  ops_in_domain docs ops -> run (init_pool ix cg) ops = (outs, p0) ->
+  queries_in_domain_after docs ops queries -> progs_of p0 queries = Some pgs ->
+  run_sched p0 (map spawn pgs) sched = (p', ths') ->
+  forall i q th r, nth_error queries i = Some q -> nth_error ths' i = Some th -> th_result th = Some r ->
+    is_select q = false -> Some r = pure_answer p0 (op_of q).
+Proof. exact indexed_sched_results_pure. Qed.
+Print Assumptions C20_indexed_every_interleaving.
+
+Theorem C20_indexed_schedule_eq_serial : forall docs bs ix cg ops outs p0 queries pgs s,
+  wf_docs docs -> index false bs docs = AOk ix ->
+  ops_in_domain docs ops -> run (init_pool ix cg) ops = (outs, p0) ->
+  queries_in_domain_after docs ops queries -> progs_of p0 queries = Some pgs ->
+  all_done (snd (run_sched p0 (map spawn pgs) s)) ->
+  results (snd (run_sched p0 (map spawn pgs) s))
+  = results (snd (run_sched p0 (map spawn pgs) (serial_schedule (map spawn pgs)))).
+Proof. exact indexed_C20_any_schedule_eq_serial. Qed.
+
+(* on a freshly indexed array: no domain condition at all *)
+Theorem C20_indexed_fresh : forall docs bs ix cg queries pgs s,
+  wf_docs docs -> index false bs docs = AOk ix ->
+  progs_of (init_pool ix cg) queries = Some pgs ->
+  all_done (snd (run_sched (init_pool ix cg) (map spawn pgs) s)) ->
+  results (snd (run_sched (init_pool ix cg) (map spawn pgs) s))
+  = results (snd (run_sched (init_pool ix cg) (map spawn pgs) (serial_schedule (map spawn pgs)))) /\
+  results (snd (run_sched (init_pool ix cg) (map spawn pgs) s)) = map (answer_of (init_pool ix cg)) queries.
+Proof. exact indexed_C20_fresh. Qed.
